@@ -683,6 +683,7 @@ fn load_known(id: &str) -> Vec<KnownFinding> {
 
 thread_local! {
     static LAST_PANIC: std::cell::RefCell<String> = const { std::cell::RefCell::new(String::new()) };
+    static CATCH_DEPTH: std::cell::Cell<u32> = const { std::cell::Cell::new(0) };
 }
 
 /// Install a panic hook that keeps panics quiet and remembers `file:line: message` per thread
@@ -700,13 +701,21 @@ pub fn quiet_panics() {
         } else {
             "panic".to_string()
         };
+        // a panic outside vh::catch on a harness thread is a harness bug: show it
+        let named_sdk_thread = std::thread::current().name().map(|n| n.starts_with("c2pa-")).unwrap_or(false);
+        if CATCH_DEPTH.with(|d| d.get()) == 0 && !named_sdk_thread {
+            eprintln!("uncaught panic at {loc}: {msg}");
+        }
         LAST_PANIC.with(|p| *p.borrow_mut() = format!("{loc}: {msg}"));
     }));
 }
 
 /// Run `f`, turning a panic into `Err("file:line: message")`.
 pub fn catch<T>(f: impl FnOnce() -> T) -> Result<T, String> {
-    match std::panic::catch_unwind(std::panic::AssertUnwindSafe(f)) {
+    CATCH_DEPTH.with(|d| d.set(d.get() + 1));
+    let r = std::panic::catch_unwind(std::panic::AssertUnwindSafe(f));
+    CATCH_DEPTH.with(|d| d.set(d.get() - 1));
+    match r {
         Ok(v) => Ok(v),
         Err(_) => Err(LAST_PANIC.with(|p| p.borrow().clone())),
     }
